@@ -224,10 +224,10 @@ func TestVerif_C11_idn(t *testing.T) {
 			}
 		}
 		s.Count("chain:" + kind)
-		if followed {
-			s.Count("chain-followed")
+		if want {
+			s.Count("chain-to-follow")
 		} else {
-			s.Count("chain-refused")
+			s.Count("chain-to-refuse")
 		}
 		pdesc := kind
 		if entry != "" {
@@ -237,6 +237,6 @@ func TestVerif_C11_idn(t *testing.T) {
 			pdesc+": "+strconv.Quote(a)+" -> Location http://"+b+"/1 : followed="+strconv.FormatBool(followed),
 			"the transport connects to "+c11DialHost(a)+" then "+c11DialHost(b)+"; the policy must follow: "+strconv.FormatBool(want))
 	}
-	s.FinishRequire("unit", "chain:samehost", "chain:samedomain", "chain:ahost", "chain:adomain", "chain-followed", "chain-refused",
+	s.FinishRequire("unit", "chain:samehost", "chain:samedomain", "chain:ahost", "chain:adomain", "chain-to-follow", "chain-to-refuse",
 		"pair:same-host", "pair:different-host", "non-ascii")
 }
